@@ -95,3 +95,28 @@ Proof.
   - intros l Hl. cbn [next locs o_scope o_vals o_sn o_n2no o_no2n] in *. simpl in Hl.
     destruct Hl as [<-|[<-|[<-|[<-|[<-|[]]]]]]; lia.
 Qed.
+
+(* ---- construction from a caller's array ------------------------------------------------------------
+   TabularCPD(...) / DiscreteFactor(...) build their values with np.array(values) (a copy) and
+   flatten() (a copy): the object's value container is a fresh cell holding the contents of the caller's
+   array [src]; the other four containers are fresh too. *)
+Definition construct (h : heap) (src : loc) (sc sn n2 no : option cell) : heap * obj :=
+  let '(h1, a) := alloc h sc in
+  let '(h2, b) := alloc h1 (cells h src) in
+  let '(h3, c) := alloc h2 sn in
+  let '(h4, d) := alloc h3 n2 in
+  let '(h5, e) := alloc h4 no in
+  (h5, {| o_scope := a; o_vals := b; o_sn := c; o_n2no := d; o_no2n := e |}).
+
+Lemma construct_spec h src sc sn n2 no :
+  let '(h', o) := construct h src sc sn n2 no in
+  cells h' (o_vals o) = cells h src /\
+  (forall l, l < next h -> cells h' l = cells h l) /\
+  (forall l, In l (locs o) -> next h <= l /\ l < next h').
+Proof.
+  unfold construct, alloc. cbn [fst snd]. split; [|split].
+  - simpl. repeat match goal with |- context [Nat.eqb ?a ?b] => destruct (Nat.eqb_spec a b); try lia end; reflexivity.
+  - intros l Hl. simpl.
+    repeat match goal with |- context [Nat.eqb ?a ?b] => destruct (Nat.eqb_spec a b); try lia end; reflexivity.
+  - intros l Hl. simpl in Hl. simpl. destruct Hl as [<-|[<-|[<-|[<-|[<-|[]]]]]]; lia.
+Qed.
